@@ -608,6 +608,7 @@ func (e *Exec) lookup(in *ssa.Lookup, x, k Value) Value {
 			if mj.M == nil || mj.M.TM == nil {
 				e.unsupported("symbolic selection among non-term maps")
 			}
+			e.locksetMapAccess(mj.M, false)
 			v, p := e.tmLookup(mj.M.TM, e.keyTerm(mj.M.TM, k))
 			if val == nil {
 				val, pres = v, p
@@ -621,6 +622,9 @@ func (e *Exec) lookup(in *ssa.Lookup, x, k Value) Value {
 		}
 		return e.termVal(val)
 	case MapV:
+		if m.M != nil {
+			e.locksetMapAccess(m.M, false)
+		}
 		if m.M != nil && m.M.TM != nil {
 			v, p := e.tmLookup(m.M.TM, e.keyTerm(m.M.TM, k))
 			if in.CommaOk {
